@@ -80,3 +80,58 @@ reg('C06', 'exploration', 'schedule control by file barriers inside real childre
     'For k = 2..3 (quick, + sampled 4) / 2..4 (+ sampled 5, thorough) layers and N = 1..k+1, every finish permutation feasible for N is forced (a child holds in a test body, in its layer tearDown, before its report, or between closing its stdout and the first byte of the report, until the parent has completely finished the layer that must precede it), at verbosity levels selecting the Deferred / Keepalive / Immediate collectors, with seeded yield injection in spawn_layer_in_subprocess / resume_tests / collector writes; a third of the children write to their real stderr at interpreter shutdown (after the report), a quarter before it; in half of the runs the stdout of the parent is slow (every third flush blocks 3-20 ms). Executed multiset, verdict, totals and name multisets must equal the sequential run; stdout must split into one block per layer in sequential order holding exactly that layer\'s tokens; the alive counter and the children\'s lifetime intervals never exceed N; the first min(N,k) children must all reach their first test before any proceeds.',
     'Progress is checked as bounded progress (barrier timeout 25 s); a requested order that is not realised makes the case inconclusive; k >= 5 sampled only.',
     'DESIGN.md 2/C06')
+
+
+# ---- fourth session: what was added to the workloads (appended to the texts)
+def _more(pid, sentence, note=None):
+    cat, tech, text, n, ref = CHECKS[pid]
+    CHECKS[pid] = (cat, tech, text + ' ' + sentence,
+                   n + (' ' + note if note else ''), ref)
+
+
+_ALL = ('A quarter of all world runs also carry one to three options that '
+        'must not matter (--exit-with-status, -1, --slow-test, --udiff, '
+        '--ignore_dir, --suite-name, --keepbytecode, --auto-color, '
+        '--no-progress, --require-unique ...); 10 % of the generated layers '
+        'only group other layers (none of the four hooks).')
+for _p in ('C01', 'C02', 'C03', 'C04', 'C05', 'C09', 'C11', 'C12', 'C13',
+           'C16'):
+    _more(_p, _ALL)
+_more('C02', 'A test module that can be imported where the run starts but '
+      'not in the layer subprocesses: when it is the only module of its '
+      'layer the verdict must be failed (checked strictly); when the layer '
+      'is still found the tests are dropped silently (recorded known '
+      'finding).')
+_more('C04', 'Every layer whose hook raised must be named in the final error '
+      'list; a raising tear-down and a NotImplementedError tear-down in one '
+      'tear-down pass.')
+_more('C06', 'Tests of every outcome kind, also ones that produce more result '
+      'events than there are tests (several failing sub-tests, body + '
+      'tearDown errors); 15 % of the worlds contain a test module nobody '
+      'can import.')
+_more('C07', 'Real children with a worker thread that keeps logging to '
+      'sys.stderr (10 us switch interval) from the layer tear-down on, i.e. '
+      'while the subprocess writes its report.')
+_more('C10', 'A layer subprocess that dies in the middle of a test (-j N and '
+      'resumed runs): headers once, one subprocess per layer (spawn events '
+      'of the Popen proxy).')
+_more('C12', 'A layer subprocess that dies in the middle of a test (any of '
+      'the layers; exit / SIGKILL / SIGSEGV) must be counted and listed as '
+      'one error, once, and the other layers must still add up.')
+_more('C14', 'A directory knit into a package with --package-path (named, '
+      'filtered with -m and loaded as PACKAGE.<name>); test modules that '
+      'cannot be imported (found, loaded once - also under nested search '
+      'paths).')
+_more('C15', 'Bytecode beside a source whose name differs in letter case / '
+      'Unicode normalisation / a blank only is an orphan; ordering rule: no '
+      'deletion (audit hook) after the first module of the tree has been '
+      'loaded by discovery.')
+_more('C17', 'A quarter of the in-process worlds spread the tests of one '
+      'class over several layers that run one after the other in one '
+      'process.')
+_more('C18', 'Two more endings (a class run as a unit whose class fixture '
+      'raises or skips as the last / first thing of the layer); a quarter of '
+      'the runs start with application-installed traceback functions.')
+_more('C19', 'Threads that share one name (worker pools); the world forgets '
+      'ended threads, so their objects are really freed (counted in the '
+      'evidence).')
